@@ -22,6 +22,8 @@ pub enum OpS {
     /// number of entries, adapted (EntriesOnly), and - for a lagging consumer - the number of items
     /// after which the caller stops reading until the fault has happened
     Stream(u8, bool, Option<u8>),
+    /// an Add whose request is large (one attribute value of this many bytes)
+    BigAdd(u32),
 }
 
 #[derive(Clone, Debug, Serialize, Deserialize)]
@@ -36,7 +38,15 @@ pub struct Scenario {
 #[derive(Clone, Debug, PartialEq, Serialize, Deserialize)]
 pub enum Fault {
     None,
-    ReadEnd { cut: usize, reset: bool },
+    ReadEnd {
+        cut: usize,
+        reset: bool,
+        /// 0 = EOF / reset as per `reset`; k > 0 = the read fails with I/O error kind k-1 of sim::READ_ERROR_KINDS
+        #[serde(default)]
+        kind: u8,
+    },
+    /// the transport accepts `at` request bytes and then reports Ok(0) for every write
+    WriteZero { at: usize },
     BadFrame { cut: usize, kind: u8 },
     WriteFail { at: usize },
     Unbind { cut: usize },
@@ -47,7 +57,11 @@ pub enum Fault {
 }
 
 fn strat(_: &Ctx) -> BoxedStrategy<Scenario> {
-    let op = prop_oneof![3 => simops::single_strat().prop_map(OpS::Single), 3 => (0u8..7, any::<bool>(), proptest::option::weighted(0.4, 0u8..3)).prop_map(|(n, a, p)| OpS::Stream(n, a, p))];
+    let op = prop_oneof![
+        30 => simops::single_strat().prop_map(OpS::Single),
+        30 => (0u8..7, any::<bool>(), proptest::option::weighted(0.4, 0u8..3)).prop_map(|(n, a, p)| OpS::Stream(n, a, p)),
+        1 => proptest::sample::select(&[16_300u32, 17_000, 33_000, 70_000][..]).prop_map(OpS::BigAdd),
+    ];
     (vec(op, 1..=5), vec(any::<u16>(), 32), proptest::bool::weighted(0.3), 0u8..8, any::<u64>()).prop_map(|(ops, ranks, one_byte_reads, write_chunk, sched)| Scenario { ops, ranks, one_byte_reads, write_chunk, sched }).boxed()
 }
 
@@ -57,7 +71,7 @@ fn tok(i: usize, s: usize) -> String {
 
 fn n_pdus(o: &OpS) -> usize {
     match o {
-        OpS::Single(_) => 1,
+        OpS::Single(_) | OpS::BigAdd(_) => 1,
         OpS::Stream(n, _, _) => *n as usize + 1,
     }
 }
@@ -108,6 +122,9 @@ pub fn run(scn: &Scenario, fault: &Fault) -> SimResult<RunOut> {
             if let Fault::WriteFail { at } = fault {
                 w.write_fail_at = Some(at);
             }
+            if let Fault::WriteZero { at } = fault {
+                w.write_zero_at = Some(at);
+            }
         });
         let n = scn.ops.len();
         let mut out = RunOut::default();
@@ -122,6 +139,17 @@ pub fn run(scn: &Scenario, fault: &Fault) -> SimResult<RunOut> {
                 let mut o = OpOut::default();
                 let body = async {
                     match op {
+                        OpS::BigAdd(size) => {
+                            let mut vals = std::collections::HashSet::new();
+                            vals.insert(vec![0x62u8; size as usize]);
+                            match ldap.add(&mk, vec![("blob".as_bytes().to_vec(), vals)]).await {
+                                Ok(r) => {
+                                    o.tokens.push(r.text);
+                                    o.end = "ok".into();
+                                }
+                                Err(e) => o.end = err_kind(&e),
+                            }
+                        }
                         OpS::Single(k) => match simops::exec_single(&mut ldap, k, &mk).await {
                             Ok(r) => {
                                 o.tokens.push(r.text);
@@ -214,6 +242,7 @@ pub fn run(scn: &Scenario, fault: &Fault) -> SimResult<RunOut> {
                 let last = seq + 1 == n_pdus(&scn.ops[cand]);
                 let resp = match (&scn.ops[cand], last) {
                     (OpS::Single(k), _) => Resp::result(k.resp_tag(), Res::ok(&tok(cand, seq))),
+                    (OpS::BigAdd(_), _) => Resp::result(9, Res::ok(&tok(cand, seq))),
                     (OpS::Stream(..), true) => Resp::result(5, Res::ok(&tok(cand, seq))),
                     (OpS::Stream(..), false) => Resp::Entry(Entry::simple(&tok(cand, seq))),
                 };
@@ -234,12 +263,12 @@ pub fn run(scn: &Scenario, fault: &Fault) -> SimResult<RunOut> {
             Fault::None => {
                 wire.push(&r_bytes);
             }
-            Fault::ReadEnd { cut, reset } => {
+            Fault::ReadEnd { cut, reset, kind } => {
                 if !all_arrived {
                     out.not_reached = true;
                 }
                 wire.push(&r_bytes[..(*cut).min(r_bytes.len())]);
-                wire.end_read(if *reset { ReadEnd::Reset } else { ReadEnd::Eof });
+                wire.end_read(if *kind > 0 { ReadEnd::Error(*kind - 1) } else if *reset { ReadEnd::Reset } else { ReadEnd::Eof });
             }
             Fault::BadFrame { cut, kind } => {
                 if !all_arrived {
@@ -248,7 +277,7 @@ pub fn run(scn: &Scenario, fault: &Fault) -> SimResult<RunOut> {
                 wire.push(&r_bytes[..(*cut).min(r_bytes.len())]);
                 wire.push(GARBAGE[*kind as usize % GARBAGE.len()]);
             }
-            Fault::WriteFail { .. } => {
+            Fault::WriteFail { .. } | Fault::WriteZero { .. } => {
                 // the write side fails by itself; the server stays silent unless everything arrived
                 if all_arrived {
                     wire.push(&r_bytes);
@@ -380,7 +409,7 @@ fn judge(scn: &Scenario, fault: &Fault, base: &RunOut, o: &RunOut) -> Result<boo
             }
             return Ok(false);
         }
-        Fault::WriteFail { at } => {
+        Fault::WriteFail { at } | Fault::WriteZero { at } => {
             // nothing can complete normally unless every request got out before the failure point
             if *at >= base.w_len {
                 return Ok(false);
@@ -442,7 +471,7 @@ fn judge(scn: &Scenario, fault: &Fault, base: &RunOut, o: &RunOut) -> Result<boo
             });
             pending_at_fault >= 1 && (inside || between)
         }
-        Fault::WriteFail { at } => pending_at_fault >= 1 && *at > 0,
+        Fault::WriteFail { at } | Fault::WriteZero { at } => pending_at_fault >= 1 && *at > 0,
         _ => false,
     };
     Ok(nt)
@@ -456,20 +485,30 @@ pub fn check(scn: &Scenario, obs: &mut Obs) -> Result<(), Fail> {
     judge(scn, &Fault::None, &base, &base)?;
     let mut faults: Vec<Fault> = Vec::new();
     for cut in 0..=base.r_len {
-        faults.push(Fault::ReadEnd { cut, reset: false });
-        faults.push(Fault::ReadEnd { cut, reset: true });
+        faults.push(Fault::ReadEnd { cut, reset: false, kind: 0 });
+        faults.push(Fault::ReadEnd { cut, reset: true, kind: 0 });
     }
     let mut boundaries: Vec<usize> = vec![0];
     boundaries.extend(base.pdu_ends.iter().map(|p| p.0));
     for (k, b) in boundaries.iter().enumerate() {
+        // every other I/O error kind at the PDU boundaries and one byte into the next PDU
+        for kind in 1..=sim::READ_ERROR_KINDS.len() as u8 {
+            faults.push(Fault::ReadEnd { cut: *b, reset: false, kind });
+            if *b + 1 < base.r_len {
+                faults.push(Fault::ReadEnd { cut: *b + 1, reset: false, kind });
+            }
+        }
         faults.push(Fault::BadFrame { cut: *b, kind: k as u8 });
         faults.push(Fault::Unbind { cut: *b });
         faults.push(Fault::AbandonWriteFail { cut: *b });
         faults.push(Fault::UnbindWriteFail { cut: *b });
     }
     faults.push(Fault::DropAll { cut: base.r_len });
-    for at in 0..base.w_len {
+    // write failures after every request byte (large requests: the first 64 bytes, then every 1009th, and the last)
+    let positions: Vec<usize> = if base.w_len <= 2000 { (0..base.w_len).collect() } else { (0..64).chain((64..base.w_len).step_by(1009)).chain(std::iter::once(base.w_len - 1)).collect() };
+    for at in positions {
         faults.push(Fault::WriteFail { at });
+        faults.push(Fault::WriteZero { at });
     }
     let mut nt = 0u64;
     for f in &faults {
@@ -483,6 +522,9 @@ pub fn check(scn: &Scenario, obs: &mut Obs) -> Result<(), Fail> {
     }
     obs.evals(faults.len() as u64);
     obs.label(format!("faults-per-scenario~{}", (faults.len() / 100) * 100));
+    if scn.ops.iter().any(|o| matches!(o, OpS::BigAdd(_))) {
+        obs.label("request>=16KiB");
+    }
     if scn.ops.iter().any(|o| matches!(o, OpS::Stream(n, _, _) if *n > 0)) {
         obs.label("stream-with-items");
     }
